@@ -296,6 +296,18 @@ var (
 	c09HTTPCtx    casket.Context
 )
 
+// every second probe directive has a parsing callback
+func c09HasCb(name string) bool { return (name[1]-'a')%2 == 0 }
+func c09CbSet() []string {
+	var out []string
+	for _, n := range c09ProbeNames {
+		if c09HasCb(n) {
+			out = append(out, n)
+		}
+	}
+	return out
+}
+
 type c09Ctx struct{}
 
 func (c09Ctx) InspectServerBlocks(f string, sb []casketfile.ServerBlock) ([]casketfile.ServerBlock, error) {
@@ -334,6 +346,9 @@ func c09Register() {
 				}
 				return nil
 			}})
+			if !c09HasCb(name) {
+				continue
+			}
 			casket.RegisterParsingCallback(c09Type, name, func(casket.Context) error {
 				c09Trace = append(c09Trace, c09Event{D: name})
 				if c09CbFail == name {
@@ -402,7 +417,7 @@ func c09RunExec(in *c09In) Result {
 	if in.CbFail != "" {
 		cbf = "(Some " + c09S(in.CbFail) + ")"
 	}
-	term := cApp("CExec", c09SList(in.Dirs), cList(bts), cBool(in.Validate), cbf, cList(evs), cBool(err == nil), c09SList(after))
+	term := cApp("CExec", c09SList(in.Dirs), cList(bts), cBool(in.Validate), c09SList(c09CbSet()), cbf, cList(evs), cBool(err == nil), c09SList(after))
 	errs := ""
 	if err != nil {
 		errs = err.Error()
